@@ -188,7 +188,7 @@ def main():
         'hooks': {
             'guard': 'SAMSUNGLABS_AWESOMEYAML_VERIF',
             'enable': 'no hooks are compiled into the repository: checks import awesomeyaml from /repo (PYTHONPATH) and observe it through the public API, '
-                      'recording callables, sys.settrace and sys.modules; the wrapper exports SAMSUNGLABS_AWESOMEYAML_VERIF=1 for uniformity only',
+                      'recording callables, sys.settrace and sys.modules, plus three probes that wrap methods of the node classes from outside (vf/probes.py: used only to attribute violations to open known findings and to skip one relation where two mapping keys spell one list element); the wrapper exports SAMSUNGLABS_AWESOMEYAML_VERIF=1 for uniformity only',
             'baseline_off_cmd': 'tools/baseline.py',
             'source_commits': [],
             'add_only': True,
